@@ -124,3 +124,46 @@ func VerifC22Stale() {
 	}
 	rt.Reach("end")
 }
+
+// VerifC22CrossEpoch: B submits a message and is replaced by a newer call of B before A's relay loop
+// has transmitted it (every run-to-block order): whatever A is handed after being told a new epoch was
+// submitted under that epoch; B's old-epoch message is never delivered after Opened(new epoch).
+func VerifC22CrossEpoch() {
+	rt.SchedBound(0, true)
+	w := svNewWorld()
+	A, B := svNewPeer(1), svNewPeer(60)
+	sa := w.open("A", A, B)
+	sb := w.open("B", B, A)
+	rt.Quiesce()
+	e1, open1, _ := sb.lastAnnounced()
+	rt.Assert("B was told the first epoch", open1)
+	// B submits under e1 and, without the relay settling, a newer call of B attaches
+	sb.reqCh <- &signaling.SessionRequest{SessionSeqno: e1, Body: &signaling.SessionRequest_SendMsg{SendMsg: svMsg(B, 4, 1)}}
+	sb2 := w.open("B2", B, A)
+	rt.Quiesce()
+	e2, open2, _ := sb2.lastAnnounced()
+	rt.Assert("the newer call was told the new epoch", open2 && e2 > e1)
+	// the newer call submits under the new epoch
+	sb2.reqCh <- &signaling.SessionRequest{SessionSeqno: e2, Body: &signaling.SessionRequest_SendMsg{SendMsg: svMsg(B, 5, 2)}}
+	rt.Quiesce()
+	// walk A's stream in order
+	cur := uint64(0)
+	got2 := false
+	for _, m := range sa.sent {
+		switch b := m.GetBody().(type) {
+		case *signaling.SessionResponse_Opened:
+			cur = b.Opened
+		case *signaling.SessionResponse_RecvMsg:
+			if b.RecvMsg.GetSeqno() == 1 {
+				rt.Reach("old message delivered")
+				rt.Assert("a message submitted under the old epoch is not delivered after the new epoch was announced", cur == e1)
+			}
+			if b.RecvMsg.GetSeqno() == 2 {
+				got2 = true
+				rt.Assert("the new-epoch message is delivered after its epoch was announced", cur == e2)
+			}
+		}
+	}
+	rt.Assert("the message submitted under the new epoch is delivered", got2)
+	rt.Reach("end")
+}
